@@ -17,7 +17,7 @@ EXPLANATION = (
     "(size = N * size_of T symbolically, so a guard on size_of T alone leaves N = 0 uncovered); C16.N: the returned pointer reaches a dereference only on the non-null edge of an is_null test whose other edge "
     "diverges into handle_alloc_error; C16.U: between a raw alloc and the Box::from_raw that gives the block an owner no call that can run foreign code occurs (else a panic leaks the block); "
     "C16.P: at every into_raw -> from_raw (and alloc -> from_raw) hand-over the pointer given back is the pointer taken (same base, offset 0) and source and target pointees have equal symbolic size under the dominating facts "
-    "and the same element alignment, so each block is released with the layout it was requested with; C16.A: no other allocator entry point is called; C16.E: allocation APIs that report failure as a value (try_reserve*, Box::try_new*, Vec::try_with_capacity, Allocator::allocate ..) are used only where failure diverges through handle_alloc_error - no normal return is reachable without the request being known to have succeeded. Because the repaired tree contains no raw alloc site, the Z/N/U rules are also run on a "
+    "and the same element alignment, so each block is released with the layout it was requested with; C16.F: every raw dealloc(ptr, layout) releases a block this function took over (into_raw / leak / alloc) with exactly that layout, only where the layout's size is provably non-zero, and once; C16.A: no other allocator entry point is called; C16.E: allocation APIs that report failure as a value (try_reserve*, Box::try_new*, Vec::try_with_capacity, Allocator::allocate ..) are used only where failure diverges through handle_alloc_error - no normal return is reachable without the request being known to have succeeded. Because the repaired tree contains no raw alloc site, the Z/N/U rules are also run on a "
     "positive fixture (fixtures/c16_raw_alloc) on which they must fire, so a pass is never vacuous.")
 
 RAW_ALLOC = ("alloc::alloc::alloc", "alloc::alloc::alloc_zeroed", "alloc::alloc::realloc", "alloc::alloc::dealloc")
@@ -62,7 +62,41 @@ def raw_alloc_rules(db, body, emit):
         emit("C16.U", site, PROVED if not foreign and owners else REFUTED,
              ("the block gets its owner (Box::from_raw) before any call that can run foreign code" if not foreign and owners else
               "calls that can unwind while the block is owned only by a raw pointer: %s (a panic leaks the block)" % sorted(set(foreign))), c.at)
-    return len(allocs)
+    # ---- raw releases: dealloc(ptr, layout)
+    deallocs = [c for c in a.calls if c.fn == "alloc::alloc::dealloc"]
+    for i, c in enumerate(deallocs):
+        site = "%s#dealloc#%d" % (body["key"], i)
+        lay = c.args[1] if len(c.args) > 1 else None
+        if not (lay is not None and lay[0] == "V" and len(lay) == 4 and lay[1] == "layout"):
+            emit("C16.F", site, UNKNOWN, "layout argument of dealloc not understood: %s" % vstr(lay), c.at)
+            continue
+        size = lay[2]
+        pf = a.poly_facts(c.facts)
+        # F1: a block of size 0 was never requested: releasing "it" hands the allocator a zero-size layout (and a pointer it never returned)
+        nz = prove(("!=", size), pf)
+        # F2: the block released is one this function took over (Box::into_raw / Box::leak / alloc) with exactly this layout
+        p = c.args[0]
+        srcs = [s for s in a.calls if ((s.fn.endswith("::into_raw") or s.fn.endswith("::leak")) and "Box::<T" in s.fn or s.fn in ("alloc::alloc::alloc", "alloc::alloc::alloc_zeroed"))
+                and s.ret[0] == "P" and p[0] == "P" and s.ret[1] == p[1] and a.dominates(s.bb, c.bb)]
+        same = False
+        sdet = "not fed by a Box::into_raw / alloc of the same block"
+        if srcs and not p[2].t:
+            s0 = srcs[0]
+            if s0.fn.startswith("alloc::alloc::"):
+                ssz = s0.args[0][2] if s0.args[0][0] == "V" and s0.args[0][1] == "layout" else None
+            else:
+                st_ = s0.targs[0]
+                ssz = (s0.args[0][3] * a.tenv.size(st_["t"])) if st_.get("k") == "slice" and s0.args[0][3] is not None else a.tenv.size(st_)
+            same = ssz is not None and prove(("==", ssz - size), pf)
+            sdet = "taken over by %s with %r bytes, released with %r bytes: equal %s" % (s0.fn.split("::")[-1], ssz, size, same)
+        # F3: released at most once: no second dealloc / owner of the same block reachable
+        again = [d for d in deallocs if d is not c and d.args[0][0] == "P" and d.args[0][1] == p[1] and (a.reaches(c.bb, d.bb) or a.reaches(d.bb, c.bb))]
+        reown = [f for f in a.calls if (f.fn.endswith("::from_raw") and "Box::<T" in f.fn) and f.args[0][0] == "P" and f.args[0][1] == p[1] and (a.reaches(c.bb, f.bb) or a.reaches(f.bb, c.bb))]
+        ok = nz and same and not again and not reown
+        emit("C16.F", site, PROVED if ok else REFUTED,
+             "dealloc with a layout of %r bytes under %s: non-zero size %s; %s; released once (no second release / re-owning of the block on the same path): %s" % (
+                 size, fstr(c.facts), "proved" if nz else "NOT implied (e.g. N = 0 with a non-zero-sized element: a zero-size layout for a block that was never requested)", sdet, not again and not reown), c.at)
+    return len(allocs) + len(deallocs)
 
 
 def _derived(base, root, depth=0):
@@ -145,6 +179,11 @@ def check_fixture(ctx, cfg):
             raw_alloc_rules(fdb, body, lambda rule, key, st, det, at: got.append((rule, st)))
     fired = {r for r, st in got if st == REFUTED}
     ctx.ob("C16.fixture", "raw_generate", fired == {"C16.Z", "C16.N", "C16.U"}, "rules firing on the positive fixture: %s (required: Z, N and U)" % sorted(fired), cfg=cfg)
+    gotf = []
+    for body in fdb.bodies:
+        if body["key"] == "unbox_by_hand":
+            raw_alloc_rules(fdb, body, lambda rule, key, st, det, at: gotf.append((rule, st)))
+    ctx.ob("C16.fixture", "unbox_by_hand", ("C16.F", REFUTED) in gotf, "C16.F on the fixture (manual release not guarded against N = 0): %s (required: refuted)" % gotf, cfg=cfg)
     gote = {}
     for body in fdb.bodies:
         if body["key"] in ("swallowed_reservation", "diverging_reservation"):
